@@ -62,7 +62,7 @@ def _run_one(args):
 
 
 # generic form of the runner used by the property modules
-def explore(check, obs, configs, limit=None, invariants=('NoFault', 'NoForeignSignal', 'RunLive', 'CascadeShape')):
+def explore(check, obs, configs, limit=None, invariants=('NoFault', 'NoForeignSignal', 'RunLive', 'CascadeShape'), random=False):
     if limit is None:
         limit = 12000 if check.tier == 'quick' else 250000
     runs = []
@@ -76,6 +76,8 @@ def explore(check, obs, configs, limit=None, invariants=('NoFault', 'NoForeignSi
         generated = list(ex.map(gen, configs))
     for label, consts, ws in generated:
         runs += [(p, t, consts['NRoots']) for p, t in replay(check, ws, consts, limit=limit)]
+    if random:
+        runs += random_runs(check)
     if obs is not None:
         judge(check, obs, runs)
     return runs
